@@ -325,9 +325,16 @@ Proof.
     intros x Hx; cbn in Hx; destruct Hx as [<-|[<-|[]]]; lia.
 Qed.
 
-(* F44 (found by this check): num_neighbors below the 1 + d + d(d+1)/2 columns of the local estimator is
-   accepted by the library; the exact model then necessarily meets a Gram-Schmidt column with u.u = 0
-   (the C++ normalises rounding noise).  Witness: d = 2, k = 5 < 6, six points of a 2-D lattice. *)
+(* "k from the minimum the method needs": Lle_Spec.hlle_min_k d = 1 + d + d(d+1)/2 is the number of columns
+   of HLLE's local estimator.  WHY it is the minimum: below it the columns cannot be independent, the exact
+   model meets a Gram-Schmidt column with u.u = 0 (the C++ then normalises rounding noise; observed on the
+   real code: non-affine embeddings of flat data, NaN at d = 3, k = 4).  Such requests are OUTSIDE the
+   property (coordinator's ruling on the proposed F44); the check counts them as observations only.
+   Witness: d = 2, k = 5 < 6, six points of a 2-D lattice. *)
+Theorem C08_hlle_min_neighbors : forall d, hlle_min_k d = hlle_ncols d.
+Proof. intros d. reflexivity. Qed.
+Print Assumptions C08_hlle_min_neighbors.
+
 Definition c08_small_k_nbrs : list (list nat) :=
   [[1; 2; 3; 4; 5]; [0; 2; 3; 4; 5]; [0; 1; 3; 4; 5]; [0; 1; 2; 4; 5]; [0; 1; 2; 3; 5]; [0; 1; 2; 3; 4]].
 Definition c08_small_k_X : mat Qc :=
